@@ -289,6 +289,15 @@ def check_C02(tier, replay=None):
     R = Result("C02", tier)
     runs = [("MC_C02_" + s, {"Slice": '"%s"' % s}) for s in ("builtins", "positions", "nested", "attrs", "pairs")]
     std_flow(R, "MC_C02", runs, "Trace_Out", {"P": '"C02"'}, MEMBER_DEVS, ["Agreement", "Emit"])
+    # second observation (the property's observe_at): typed struct literals synthesised from Schema!ExpFields must
+    # compile against the generated structs (compile/run pipeline, shared and cached)
+    import crpipe
+    vocab, cases, events, stats = crpipe.run_pipeline(tier, cr_cases(tier))
+    traces = crpipe.write_traces("CR_C02", vocab, cases, events, shards=min(8, len(cases)))
+    tcfg = cfg("TraceSpec", {"Dev": "{}", "P": '"C02"', "Tok": "<- TokOfTrace"}, post="Accepted")
+    viol, known, stale, drift = trace_run(R, "Trace_CR", tcfg, traces, "T_CR_C02")
+    R.viol += viol
+    R.extra["typed_driver_cases"] = len(cases)
     R.extra["exhaustive"] = True
     return finish(R, "model_checking",
                   "every type shape of the bounded space (27 builtins x min x max; named complex/simple type of the same and of another namespace, ref, builtin x min x max x 5 positions x occurrence of the enclosing sequence x helper order; attributes; member pairs) is one TLC state on which operational walk = declarative members is checked; each is concretised into a two-file schema set, generated by the real code, and the abstracted structs are judged by TLC against Schema!ExpFields; distinct by shape",
